@@ -6,6 +6,8 @@ Model of the node drain (C10):
 * `needsForceDelete`, `Queue.Add` / `earlier`, `Queue.Reconcile` (`evict`, `forceDelete`, `complete`)
   of `pkg/controllers/node/termination/terminator/eviction.go`,
 * `Terminator.Drain` / `groupPodsByPriority` of `…/terminator/terminator.go`,
+* `Controller.nodeTerminationTime` of `pkg/controllers/node/termination/controller.go` (where a drain pass of the
+  termination controller takes the node deadline from, and when it refuses to proceed),
 * the step function of a history (drain passes, reconciles, clock advances, pod changes) against the
   emulated API server used by the correspondence harness.
 
@@ -213,6 +215,28 @@ def drain (q : Items) (pods : List Pod) (D : Option Int) (now : Int) : Items × 
   if !g.isEmpty then (qaddAll q1 D (g.map (·.uid)), true)
   else (q1, !de.isEmpty)
 
+/-! ### controller.go: where the node deadline comes from -/
+
+/-- what `finalize` knows about the node deadline when it reaches `nodeTerminationTime` -/
+inductive DeadlineSrc
+  /-- no NodeClaim for the node, or several (`nodeClaim == nil`) -/
+  | noClaim
+  /-- the NodeClaim does not carry the termination-timestamp annotation (no terminationGracePeriod) -/
+  | noAnnotation
+  /-- the annotation is present; `t` = the instant it denotes, `none` = its value is not a timestamp
+      (`time.Parse(time.RFC3339, …)` fails, see `Karp.Rfc3339.parse`) -/
+  | annotation (t : Option Int)
+deriving Repr, DecidableEq
+
+/-- `Controller.nodeTerminationTime(node, nodeClaim)`: `none` = an error is returned (and `finalize` returns it
+    before tainting or draining anything), `some D` = the deadline handed to `Terminator.Drain`.  The guarded
+    returns are those listed in the regenerated `C10Drain.nodeTerminationTimeReturns`. -/
+def nodeTerminationTime : DeadlineSrc → Option (Option Int)
+  | .noClaim => some none
+  | .noAnnotation => some none
+  | .annotation none => none
+  | .annotation (some t) => some (some t)
+
 /-! ### histories against the emulated API server -/
 
 /-- a pod object in the (emulated) API server -/
@@ -227,6 +251,8 @@ deriving Repr, DecidableEq
 inductive Step
   | add (d : Option Int) (ps : List Nat)
   | drain (d : Option Int)
+  /-- a drain pass driven by the termination controller (`Controller.Reconcile` → `finalize`) -/
+  | node (src : DeadlineSrc)
   | recon (p : Nat) (ea : EvictAns) (da : DeleteAns)
   | tick (ns : Int)
   | change (p : Nat) (m : Mut)
@@ -296,6 +322,7 @@ def advance (s : State) (st : Step) (q' : Items) (calls : List Call) : State :=
   match st with
   | .add _ _ => { s with q := q' }
   | .drain _ => { s with q := q' }
+  | .node _ => { s with q := q' }
   | .recon i ea da => { s with q := q', pods := modifyAt s.pods i (fun w => applyCall w s.now calls.head? ea da) }
   | .tick ns => { s with q := q', now := s.now + ns }
   | .change i m => { s with q := q', pods := modifyAt s.pods i (fun w => applyMut s.pods.length w s.now m) }
@@ -310,11 +337,27 @@ deriving Repr, DecidableEq
 def resString : Res → String
   | .done => "done" | .requeue => "requeue" | .error => "error"
 
+/-- a drain pass with deadline `d` -/
+def drainStep (s : State) (d : Option Int) : StepOut :=
+  let o := drain s.q (livePods s) d s.now
+  { r := if o.2 then "waiting" else "drained", calls := [], items := o.1 }
+
+/-- a reconcile of the termination controller that returns an error before it drains: nothing happens -/
+def refusedStep (s : State) : StepOut := { r := "error", calls := [], items := s.q }
+
+/-- the deadline a step drains under, if it is a drain pass that goes ahead -/
+def passDeadline : Step → Option (Option Int)
+  | .drain d => some d
+  | .node src => nodeTerminationTime src
+  | _ => none
+
 def stepModel (s : State) : Step → StepOut
   | .add d ps => { r := "", calls := [], items := qaddAll s.q d (liveUids s ps) }
-  | .drain d =>
-    let o := drain s.q (livePods s) d s.now
-    { r := if o.2 then "waiting" else "drained", calls := [], items := o.1 }
+  | .drain d => drainStep s d
+  | .node src =>
+    match nodeTerminationTime src with
+    | none => refusedStep s
+    | some d => drainStep s d
   | .recon i ea da =>
     match s.pods[i]? with
     | none => { r := "absent", calls := [], items := s.q }
